@@ -131,6 +131,10 @@ def _unit_of(obj):
     return None
 
 
+class _StrSubclass(str):
+    pass
+
+
 def _task(task):
     if task[0] == "histories":
         return _small_histories(task[1])
@@ -150,13 +154,16 @@ def _task(task):
             if again != (False, fixed):
                 part.violation(sig0 + ":rewrite is not idempotent", {"second": again})
             part.add("nontrivial", legacy)
-            for order in ("legacy first", "current first"):
+            for order in ("legacy first", "current first", "legacy given as numpy.str_ first", "legacy given as an instance of a str subclass first"):
+                # (a unit read from a numpy string array or taken from a str-based Enum is still that spelling)
+                lg = legacy if "given as" not in order else (np.str_(legacy) if "numpy" in order else _StrSubclass(legacy))
                 for name, f in entry_points(db, qt, cat):
                     worlds.clear_caches(db)
                     sig = "%s:%s:%s" % (sig0, name, order)
                     snippet = None
                     res = {}
-                    for which, u in (("legacy", legacy), ("current", current)) if order == "legacy first" else (("current", current), ("legacy", legacy)):
+                    cur = current if lg is legacy else type(lg)(current)  # (compared in the same string type: some entry points only take plain str)
+                    for which, u in (("current", cur), ("legacy", lg)) if order == "current first" else (("legacy", lg), ("current", cur)):
                         try:
                             res[which] = ("ok", f(u))
                         except Exception as e:
@@ -165,6 +172,11 @@ def _task(task):
                         # the entry point does not apply to this unit at all (e.g. no default category): not judged
                         if res["legacy"][0] != "raise":
                             part.violation(sig + ":legacy accepted where the current spelling is rejected", {"current": repr(res["current"][1]), "legacy": repr(res["legacy"][1])})
+                        part.count("not_applicable_entry")
+                        continue
+                    if res["legacy"][0] == "raise" and lg is not legacy and isinstance(res["legacy"][1], TypeError) and "Only str is accepted" in str(res["legacy"][1]):
+                        # this entry point takes plain str only (it lets a str subclass through just when the request
+                        # happens to be cached): the string type, not the spelling, is what it refuses
                         part.count("not_applicable_entry")
                         continue
                     if res["legacy"][0] == "raise":
@@ -292,6 +304,7 @@ def _small_steps(legacy, current, qt, base):
         ("R:AddCategory('child', from_category='limited', valid_units=<the list GetValidUnits('limited') returned, u appended>)", "RQ",
          lambda db, u: (lambda lst: (lst.append(u), repr((db.AddCategory("child", from_category="limited", valid_units=lst).valid_units, db.GetValidUnits("child"))))[1])(db.GetValidUnits("limited"))),
         ("R:AddCategory('child2', from_category='limited', valid_units=[base, u])", "RQ", lambda db, u: repr((db.AddCategory("child2", from_category="limited", valid_units=[base, u]).valid_units, db.GetValidUnits("child2")))),
+        ("R:AddCategory('child3', from_category='limited', default_unit=u)", "RQ", lambda db, u: repr((db.AddCategory("child3", from_category="limited", default_unit=u).default_unit, db.GetDefaultUnit("child3")))),
         ("R:AddUnit(qt, 'x')", "R", lambda db, u: db.AddUnit(qt, "ex", "x", MakeBaseToCustomary(0.0, 2.0, 1.0, 0.0), MakeCustomaryToBase(0.0, 2.0, 1.0, 0.0))),
         ("Q:db.GetDefaultCategory(u)", "Q", lambda db, u: db.GetDefaultCategory(u)),
         ("Q:ObtainQuantity(u)", "Q", lambda db, u: ObtainQuantity(u)),
